@@ -23,8 +23,11 @@ env = dict(os.environ)
 if WT:
     env["VERIF_REPO"] = WT
     d = subprocess.run(["git", "-C", WT, "diff"], capture_output=True, text=True).stdout
-    if d.strip() != open(os.path.join(sd, "patch.diff")).read().strip():
-        raise SystemExit(f"{WT} does not contain exactly patch.diff")
+    def changed(t):  # the changed lines only: hunk positions move when /repo gets other commits
+        return [l for l in t.split("\n") if l[:1] in "+-" and not l.startswith(("+++", "---"))]
+
+    if changed(d) != changed(open(os.path.join(sd, "patch.diff")).read()):
+        raise SystemExit(f"{name}: {WT} does not contain exactly patch.diff")
 else:
     subprocess.run(["git", "-C", "/repo", "diff", "--quiet"], check=True)
 try:
